@@ -84,8 +84,17 @@ def build_all(verbose=False):
         open(os.path.join(hdir, "go.mod"), "w").write(gomod)
         shutil.copyfile(os.path.join(REPO, "go.sum"), os.path.join(hdir, "go.sum"))
         rc, log = sh(["go", "build", "-tags", "verif", "-o", os.path.join(BUILD, "jqh"), "."], cwd=hdir, env=GOENV)
+        info["harness_ok"] = rc == 0
         if rc != 0:
-            raise BuildError("go build harness", log)
+            # the tree builds but the harness does not build against it: the exported API (or the AST the
+            # harness dumps) changed shape.  Not an infrastructure failure: the correspondence can no longer
+            # be run, which every check reports as a broken obligation; checks that also drive the real
+            # binary still do so.
+            info["harness_log"] = log[-1500:]
+            try:
+                os.remove(os.path.join(BUILD, "jqh"))
+            except OSError:
+                pass
         # 2. translator
         rc, log = sh(["go", "build", "-o", os.path.join(BUILD, "gen"), "."], cwd=os.path.join(VERIF, "gen"), env=GOENV)
         if rc != 0:
